@@ -114,6 +114,7 @@ type Profile struct {
 	Adversarial int // percent of events drawn from the adversarial pool
 	Replicas    []int64  // replica counts for new stores (default 1..3)
 	LateNodes   []string // accounts that may register as nodes later in the trace
+	Staking     bool     // run x/staking's end-blocker too (profiles with staking messages)
 	ShortBlocks bool     // keep block advances short (reward traces stay inside the exact fragment)
 }
 
@@ -216,10 +217,14 @@ func (d *Driver) blocksEvent() Event {
 	sch := d.scheduled()
 	n := int64(1 + d.R.Intn(3))
 	if d.P.ShortBlocks {
-		if d.R.Intn(10) == 0 {
-			return Event{Kind: "Blocks", N: int64(1 + d.R.Intn(40))}
+		st := int64(0)
+		if d.P.Staking {
+			st = 1
 		}
-		return Event{Kind: "Blocks", N: int64(1 + d.R.Intn(6))}
+		if d.R.Intn(10) == 0 {
+			return Event{Kind: "Blocks", N: int64(1 + d.R.Intn(40)), Status: st}
+		}
+		return Event{Kind: "Blocks", N: int64(1 + d.R.Intn(6)), Status: st}
 	}
 	if len(sch) > 0 && d.R.Intn(100) < 70 {
 		// EndBlock at height X runs when advancing from X to X+1.
@@ -242,6 +247,9 @@ func (d *Driver) blocksEvent() Event {
 	}
 	if n > 12000 {
 		n = 12000
+	}
+	if d.P.Staking {
+		return Event{Kind: "Blocks", N: n, Status: 1}
 	}
 	return Event{Kind: "Blocks", N: n}
 }
@@ -381,6 +389,40 @@ func (d *Driver) Next() Event {
 			d.P.Nodes = append(d.P.Nodes, a)
 			d.do(Event{Kind: "Create", Creator: a})
 			return Event{Kind: "Reset", Creator: a, Status: 13}
+		case "Delegate", "Undelegate":
+			who := d.pick(append(append([]string{}, d.P.Nodes...), "a09", "a10"))
+			val := d.pick([]string{"v1", "v2"})
+			amt := []int64{50000, 150000, 250000, 400000, 1000000}[d.R.Intn(5)]
+			if k == "Delegate" && d.R.Intn(7) == 0 {
+				amt = 20000000 // more than the balance: fails after the first staking hook ran
+			}
+			if k == "Undelegate" {
+				// prefer an existing delegation, sometimes all of it
+				var mine []PDeleg
+				for _, x := range d.St.Delegs {
+					if x.D != "vo1" && x.D != "vo2" {
+						mine = append(mine, x)
+					}
+				}
+				if len(mine) > 0 && d.R.Intn(5) != 0 {
+					x := mine[d.R.Intn(len(mine))]
+					who, val = x.D, x.V
+					if d.R.Intn(3) == 0 {
+						amt = x.Shares
+					} else if amt > x.Shares {
+						amt = x.Shares / 2
+						if amt == 0 {
+							amt = x.Shares
+						}
+					}
+				}
+			}
+			return Event{Kind: k, Creator: who, Val: val, Amount: amt}
+		case "ResetSuper":
+			n := d.pick(d.P.Nodes)
+			st := []int64{15, 15, 15, 13, 7, 0}[d.R.Intn(6)]
+			val := []string{"", "", "v1", "v2"}[d.R.Intn(4)]
+			return Event{Kind: "Reset", Creator: n, Status: st, Val: val, Tx: d.P.HotKeys[n]}
 		case "Ready":
 			var cands []POrder
 			for _, o := range d.St.Orders {
